@@ -42,7 +42,7 @@ func C07(r *core.Report) {
 	c07EveryEpochConsidered(r)
 	r.Floor("C07.R14", 1)
 	r.Floor("C07.R13", 2)
-	r.Floor("C07.R12", 2)
+	r.Floor("C07.R12", 1)
 	r.Floor("C07.R11", 2)
 	r.Floor("C07.R9", 1)
 	r.Floor("C07.R8", 1)
@@ -867,6 +867,85 @@ func c07LimitCountsWholeResult(r *core.Report) {
 				}
 				return false, core.ExprStr(q)
 			}
+			// a running counter of the appends: starts at 0 outside every loop, is stepped by one right after every append
+			// to the result (no way from an append to the next loop head or to the exit without the step) and nowhere else
+			runningCount := func(q ast.Expr) bool {
+				qo, isVar := core.ObjOf(info, core.Unparen(q)).(*types.Var)
+				if !isVar || qo.IsField() || isParamOf(f, qo) {
+					return false
+				}
+				inLoop := func(pos token.Pos) bool {
+					in := false
+					ast.Inspect(f.Body, func(m ast.Node) bool {
+						switch l := m.(type) {
+						case *ast.ForStmt:
+							if l.Body.Pos() <= pos && pos < l.Body.End() {
+								in = true
+							}
+						case *ast.RangeStmt:
+							if l.Body.Pos() <= pos && pos < l.Body.End() {
+								in = true
+							}
+						}
+						return true
+					})
+					return in
+				}
+				steps := map[*core.GNode]bool{}
+				okAll := true
+				for _, nd := range stmtNodes(g) {
+					switch x := nd.Ast.(type) {
+					case *ast.IncDecStmt:
+						if core.ObjOf(info, x.X) == types.Object(qo) {
+							if x.Tok == token.INC {
+								steps[nd] = true
+							} else {
+								okAll = false
+							}
+						}
+					case *ast.AssignStmt:
+						for i, l := range x.Lhs {
+							if core.ObjOf(info, l) != types.Object(qo) {
+								continue
+							}
+							if _, one := addsOne(info, x); one {
+								steps[nd] = true
+								continue
+							}
+							var rhs ast.Expr
+							if len(x.Rhs) == len(x.Lhs) {
+								rhs = x.Rhs[i]
+							}
+							if v, isC := core.ConstInt(info, rhs); !(rhs != nil && isC && v == 0 && !inLoop(x.Pos())) {
+								okAll = false
+							}
+						}
+					}
+				}
+				if !okAll || len(steps) == 0 || len(steps) != len(apps) {
+					return false
+				}
+				stop := func(x *core.GNode) bool {
+					return x == g.Exit || (x.Kind == core.KBlock && (x.Block.Kind.String() == "RangeLoop" || x.Block.Kind.String() == "ForLoop"))
+				}
+				for _, a2 := range apps {
+					if g.PathAvoiding(a2, stop, func(x *core.GNode) bool { return steps[x] }) != nil {
+						return false
+					}
+				}
+				for st := range steps {
+					dominated := false
+					for _, a2 := range apps {
+						if g.Dominates(a2, st) {
+							dominated = true
+						}
+					}
+					if !dominated {
+						return false
+					}
+				}
+				return true
+			}
 			// classify every edge that is the false outcome of a condition with a `q >= limit` conjunct
 			wholeEdge := map[*core.GNode]bool{}
 			classify := func(d *core.GNode) (isLimit, isWhole bool, what string) {
@@ -897,7 +976,7 @@ func c07LimitCountsWholeResult(r *core.Report) {
 						continue // `limit <= 0` and the like
 					}
 					isLimit = true
-					if ok, w := sizeOfWhole(q); ok {
+					if ok, w := sizeOfWhole(q); ok || runningCount(q) {
 						isWhole = true
 					} else {
 						what = w
@@ -1524,13 +1603,15 @@ func slotWalkStopsOnlyBelowRange(r *core.Report, rule string) {
 			return
 		case *ast.IfStmt:
 			var conds []guard
-			for _, fct := range core.DecomposeCond(x.Cond, true) {
+			// predicate helpers (window.isPast(slot)) are read as the comparison they make
+			xc := core.InlineCond(f, x.Cond)
+			for _, fct := range core.DecomposeCond(xc, true) {
 				conds = append(conds, guard{fct.Expr, fct.Truth})
 			}
 			walk(x.Body, append(append([]guard(nil), gs...), conds...))
 			if x.Else != nil {
 				var neg []guard
-				for _, fct := range core.DecomposeCond(x.Cond, false) {
+				for _, fct := range core.DecomposeCond(xc, false) {
 					neg = append(neg, guard{fct.Expr, fct.Truth})
 				}
 				walk(x.Else, append(append([]guard(nil), gs...), neg...))
@@ -1554,12 +1635,12 @@ func slotWalkStopsOnlyBelowRange(r *core.Report, rule string) {
 				if x.Tag == nil {
 					inner = append(inner, earlier...)
 					if len(cc.List) == 1 {
-						for _, fct := range core.DecomposeCond(cc.List[0], true) {
+						for _, fct := range core.DecomposeCond(core.InlineCond(f, cc.List[0]), true) {
 							inner = append(inner, guard{fct.Expr, fct.Truth})
 						}
 					}
 					for _, ce := range cc.List {
-						for _, fct := range core.DecomposeCond(ce, false) {
+						for _, fct := range core.DecomposeCond(core.InlineCond(f, ce), false) {
 							earlier = append(earlier, guard{fct.Expr, fct.Truth})
 						}
 					}
